@@ -25,7 +25,7 @@ func main() {
 		Modes: []luaprop.Mode{{Name: "errors", Features: f, Weight: 3},
 			{Name: "errors-autostack", Features: f, Weight: 1, Run: &luagen.RunOptions{MinimizeStack: true, CallStackSize: 64}}},
 		NQuick:    120,
-		NThorough: 6000,
+		NThorough: 2500,
 		Corpus:    corpus,
 		Isolate:   true,
 		Extra:     faultEnumeration,
